@@ -100,7 +100,7 @@ def main():
         "setup_cmd": "./scripts/setup.sh",
         "hooks": {
             "guard": "verif",
-            "enable": "go test -c -tags verif (harness module with replace directives to /repo/libvore/...); the guard adds a VM step counter/limit in libvore/engine",
+            "enable": "go test -c -tags verif (harness module with replace directives to /repo/libvore/...); the guard adds a VM step counter/limit and an abort flag for a watchdog goroutine in libvore/engine",
             "baseline_off_cmd": "./scripts/baseline_off.sh",
             "source_commits": json.load(open(os.path.join(VERIF, "scripts", "hook_commits.json"))),
             "add_only": True,
